@@ -194,11 +194,11 @@ func runCycles(cfg *hx.RunCfg) error {
 	if n, err := strconv.Atoi(cfg.Extra); err == nil && n > 0 && n <= 36 {
 		cycles = n // more would push step indices (nat literals) past 1000
 	}
-	plain, err := runCycleCase(cfg.Seed, "plain", "127.0.10.5", cycles, false, rec)
+	plain, err := runCycleCase(cfg.Seed, "plain", loop(5), cycles, false, rec)
 	if err != nil {
 		return err
 	}
-	served, err := runCycleCase(cfg.Seed, "served", "127.0.10.6", cycles, true, rec)
+	served, err := runCycleCase(cfg.Seed, "served", loop(6), cycles, true, rec)
 	if err != nil {
 		return err
 	}
